@@ -143,7 +143,7 @@ static void run() {
     if (a.shard == 0)
         for (const char *s : {"foo{}bar", "1234a", "(1 (a b c) 3)", "#xdeadBEEF", "(#xFF #xff #Xff)", "((((((((a))))))))", "(a . b)", "\"str\"", "(a\x01)", "18446744073709551615", "#xffffffffffffffff", "(%|/_:;.!?$&=*<>~)"})
             run_input(s, false);
-    if (a.shard == 1 % a.nshards) giant_offsets();
+    if (a.shard == 1 % a.nshards && !vp::vg().on) giant_offsets();
 }
 static bool replay(const std::string &text) {
     auto w = vp::split(vp::lines(text).at(0));
